@@ -225,8 +225,13 @@ class GaussianKDE(DensityEstimator):
         else:  # else just use the entire range of the samples
             lwr, upr = self.sample[0], self.sample[-1]
 
+        # the tolerance on the location must follow the scale of the data: the default
+        # is an absolute 1e-5, which is wider than the whole sample for data of order 1e-6
         result = minimize_scalar(
-            lambda x: -self(x), bounds=[lwr, upr], method="bounded"
+            lambda x: -self(x),
+            bounds=[lwr, upr],
+            method="bounded",
+            options={"xatol": 1e-5 * (upr - lwr)},
         )
         return result.x
 
